@@ -63,7 +63,11 @@ class Probe:
                 areas.append(S.record("area", xmin=A.fn_log(A.Rat.const(lo)), xmax=A.fn_log(A.Rat.const(hi))))
             else:
                 areas.append(S.record("area", xmin=lo, xmax=hi))
-        self.areas_repr = A.sym("AREAS_REPR")
+        # eko's areas_representation: one row [xmin, xmax, coefficients...] per area, the same (log) borders as the areas
+        self.areas_repr = S.Arr([[ar.attrs["xmin"], ar.attrs["xmax"], A.sym(f"AC{i}_0"), A.sym(f"AC{i}_1")] for i, ar in enumerate(areas)])
+        self.areas_label = "AREAS_REPR"
+        self.snapshot = lambda: (tuple(A.canon(S.num_norm(v)) for v in self.areas_repr.flat()),
+                                 tuple((A.canon(S.num_norm(ar.attrs["xmin"])), A.canon(S.num_norm(ar.attrs["xmax"]))) for ar in areas))
         pdf = S.record("pdf_func", areas=areas, _mode_log=log_mode, areas_representation=self.areas_repr,
                        is_below_x=S._NativeFn(lambda xx: False))
         # calling the basis function: f(x)
@@ -87,8 +91,8 @@ class Probe:
         ext = {
             "scipy.integrate.quad": quad,
             "numpy.unique": uniq,
-            "eko.interpolation.evaluate_x": lambda ev, xx, ar: A.opaque("BASIS_LIN", (S.num_norm(xx), A.canon(ar))),
-            "eko.interpolation.log_evaluate_x": lambda ev, xx, ar: A.opaque("BASIS_LOG", (S.num_norm(xx), A.canon(ar))),
+            "eko.interpolation.evaluate_x": lambda ev, xx, ar: A.opaque("BASIS_LIN", (S.num_norm(xx), self._repr_label(ar))),
+            "eko.interpolation.log_evaluate_x": lambda ev, xx, ar: A.opaque("BASIS_LOG", (S.num_norm(xx), self._repr_label(ar))),
         }
         self.ev = S.Evaluator(proj, lenient_ext=True, ext_calls=ext)
         # the basis function object must be callable
@@ -96,7 +100,16 @@ class Probe:
         pdf.attrs["__call_hook__"] = True
         self.ext = ext
 
+    def _repr_label(self, ar):
+        """The areas representation handed to eko's evaluation: the basis function's own table, unchanged."""
+        if ar is self.areas_repr and self.snapshot() == self.initial:
+            return self.areas_label
+        if isinstance(ar, S.Arr):
+            return "OTHER_TABLE[" + ",".join(A.canon(S.num_norm(v))[:20] for v in ar.flat())[:120] + "]"
+        return A.canon(ar)
+
     def run(self):
+        self.initial = self.snapshot()
         conv = self.proj.func(CONV, "convolution")
         ev = self.ev
         pdf = self.pdf
@@ -116,6 +129,23 @@ class Probe:
         return ev.call(S.FuncVal(ev, conv), [self.rsl, self.x, pdf], {})
 
 
+def convolution_outcomes(proj):
+    """conv.convolution folded on every shape of distribution (reg / sing / loc present or not, log / linear grid, the probe geometries):
+    -> [(label, outcome)] with outcome 'ok' | 'undecided: ...' | 'raises ...'  (used by C16.conv: an internal error is not a rejection)."""
+    out = []
+    GEOMETRIES = [("inside", Fraction(1, 4), [Fraction(1, 8), Fraction(1, 2), Fraction(1)]), ("single-area", Fraction(1, 4), [Fraction(1, 8), Fraction(1, 2)])]
+    for (geo, x, borders), (has_reg, has_sing, has_loc, log_mode) in itertools.product(GEOMETRIES, itertools.product([False, True], repeat=4)):
+        label = f"reg={int(has_reg)},sing={int(has_sing)},loc={int(has_loc)},{'log' if log_mode else 'lin'},x {geo}"
+        try:
+            Probe(proj, has_reg, has_sing, has_loc, log_mode, x, borders).run()
+            out.append((label, "ok"))
+        except A.Undecided as e:
+            out.append((label, f"undecided: {e}"))
+        except S.Raised as e:
+            out.append((label, f"raises {e}"))
+    return out
+
+
 def check_convolution(rep, proj):
     conv = proj.func(CONV, "convolution")
     mod = proj.module(CONV)
@@ -128,7 +158,8 @@ def check_convolution(rep, proj):
     # polynomial: the plus-distribution subtraction lives on [x, x/xmax]); x strictly below the support (f(x) = 0)
     GEOMETRIES = [("inside", Fraction(1, 4), [Fraction(1, 8), Fraction(1, 2), Fraction(1)]),
                   ("lower-end", Fraction(1, 8), [Fraction(1, 8), Fraction(1, 4), Fraction(1, 2)]),
-                  ("below", Fraction(1, 16), [Fraction(1, 8), Fraction(1, 4), Fraction(1, 2)])]
+                  ("below", Fraction(1, 16), [Fraction(1, 8), Fraction(1, 4), Fraction(1, 2)]),
+                  ("single-area", Fraction(1, 4), [Fraction(1, 8), Fraction(1, 2)])]  # a basis function supported on one grid cell (first / last of low degree)
     for (geo, x, borders), (has_reg, has_sing, has_loc, log_mode) in itertools.product(GEOMETRIES, itertools.product([False, True], repeat=4)):
         label = f"reg={int(has_reg)},sing={int(has_sing)},loc={int(has_loc)},{'log' if log_mode else 'lin'}" + ("" if geo == "inside" else f",x {geo}")
         construct = f"{conv.fq}[{label}]"
@@ -143,9 +174,13 @@ def check_convolution(rep, proj):
             rep.bad("C01.integrand", conv.site, construct, f"folding conv.convolution on the probe raises {e}", key=label)
             continue
         n += 1
+        if p.snapshot() != p.initial:
+            rep.bad("C01.integrand", conv.site, construct, "conv.convolution changes the basis function it is given (its area borders / areas_representation differ after the call): "
+                    "every later convolution with this basis function integrates another function", key=label + "|basis-intact")
+            continue
         z = p.z
         basis = "BASIS_LOG" if log_mode else "BASIS_LIN"
-        f_ov = A.opaque(basis, (S.num_norm(A.Rat.const(x) / z), A.canon(p.areas_repr))) / z
+        f_ov = A.opaque(basis, (S.num_norm(A.Rat.const(x) / z), p.areas_label)) / z
         f_x = A.opaque("BASIS_AT", (x,))
         exp_int = A.Rat.const(0)
         if has_reg:
@@ -176,8 +211,9 @@ def check_convolution(rep, proj):
                 if isinstance(c["b"], A.Rat) or c["b"] != hi:
                     problems.append(f"upper limit {A.canon(c['b'])[:40]} != min(max(x/borders), 1) (1-eps)")
                 pts = c["points"]
-                pts = sorted(A.canon(S.num_norm(v)) for v in (pts.data if isinstance(pts, S.Arr) else (pts or [])))
-                if pts != sorted(A.canon(x / b) for b in borders):
+                # as a set: scipy's quad passes np.unique(points) on (repeated break points are the same request)
+                pts = sorted({A.canon(S.num_norm(v)) for v in (pts.flat() if isinstance(pts, S.Arr) else (pts or []))})
+                if pts != sorted({A.canon(x / b) for b in borders}):
                     problems.append(f"breakpoints {pts} != x/borders {sorted(str(x / b) for b in borders)}")
                 if S.num_norm(c["epsabs"]) != eps_abs:
                     problems.append(f"epsabs {c['epsabs']} is not eps_integration_abs")
